@@ -60,7 +60,7 @@ type Config struct {
 	Refresh    bool
 	Pruning    bool
 	Pacing     bool // instantaneous operations, no injected writes: waits are exact
-	Second     bool // a second real reconciler ("r3": own status slot, own target, own failures) works on the same table
+	Extra      int  // further real reconcilers ("r3".."r6": own status slot, own target, own failures) on the same table
 	Keys       int
 	Phases     int
 	Report     map[string]bool // conv, status, pacing
@@ -109,9 +109,7 @@ type sim struct {
 	model     map[uint64]uint64 // id -> payload of the latest user write (absent = deleted)
 	modelRev  map[uint64]uint64 // id -> revision of the latest user write
 	r2done    map[uint64]uint64 // id -> payload for which the second reconciler set Done
-	target3   map[uint64]uint64 // target of the real second reconciler r3
-	attempts3 []Attempt
-	op3Rng    *rand.Rand
+	extra     []*extraRec // further real reconcilers
 	nextPay   uint64
 	seq       int64 // event sequence (under mu)
 	failProb  int   // percent
@@ -349,17 +347,23 @@ func (o *ops) Prune(ctx context.Context, txn statedb.ReadTxn, objs iter.Seq2[*RO
 	return nil
 }
 
-// ops3 are the operations of the real second reconciler (Config.Second): failures with the same probability, durations
-// 0/1/30 ms, no injected writes.
-type ops3 struct{ s *sim }
+// extraRec is a further real reconciler of the same table (Config.Extra): own status slot in the StatusSet, own simulated
+// target, failures with the same probability as the first, durations 0/1/30 ms, no injected writes.
+type extraRec struct {
+	s        *sim
+	name     string
+	target   map[uint64]uint64
+	attempts []Attempt
+	rng      *rand.Rand
+}
 
-func (o *ops3) do(op string, obj *RObj, rev uint64) error {
+func (o *extraRec) do(op string, obj *RObj, rev uint64) error {
 	s := o.s
-	a := Attempt{At: s.now(), Op: op, ID: obj.ID, Payload: obj.Payload, Rev: rev, Kind: obj.Statuses.Get("r3").Kind.String()}
+	a := Attempt{At: s.now(), Op: op, ID: obj.ID, Payload: obj.Payload, Rev: rev, Kind: obj.Statuses.Get(o.name).Kind.String()}
 	s.mu.Lock()
 	a.Seq = s.nextSeq()
-	fail := s.op3Rng.IntN(100) < s.failProb
-	dur := []time.Duration{0, 0, time.Millisecond, 30 * time.Millisecond}[s.op3Rng.IntN(4)]
+	fail := o.rng.IntN(100) < s.failProb
+	dur := []time.Duration{0, 0, time.Millisecond, 30 * time.Millisecond}[o.rng.IntN(4)]
 	s.mu.Unlock()
 	if dur > 0 {
 		time.Sleep(dur)
@@ -368,58 +372,63 @@ func (o *ops3) do(op string, obj *RObj, rev uint64) error {
 	s.mu.Lock()
 	if !fail {
 		if op == "update" {
-			s.target3[a.ID] = a.Payload
+			o.target[a.ID] = a.Payload
 		} else {
-			delete(s.target3, a.ID)
+			delete(o.target, a.ID)
 		}
 	}
-	s.attempts3 = append(s.attempts3, a)
+	o.attempts = append(o.attempts, a)
 	s.mu.Unlock()
-	s.logf("r3 op %s id=%d payload=%d rev=%d status=%s ok=%v", a.Op, a.ID, a.Payload, a.Rev, a.Kind, a.OK)
+	s.logf("%s op %s id=%d payload=%d rev=%d status=%s ok=%v", o.name, a.Op, a.ID, a.Payload, a.Rev, a.Kind, a.OK)
 	if fail {
-		return errors.New("injected failure (r3)")
+		return errors.New("injected failure (" + o.name + ")")
 	}
 	return nil
 }
 
-func (o *ops3) Update(ctx context.Context, txn statedb.ReadTxn, rev statedb.Revision, obj *RObj) error {
+func (o *extraRec) Update(ctx context.Context, txn statedb.ReadTxn, rev statedb.Revision, obj *RObj) error {
 	return o.do("update", obj, rev)
 }
-func (o *ops3) Delete(ctx context.Context, txn statedb.ReadTxn, rev statedb.Revision, obj *RObj) error {
+func (o *extraRec) Delete(ctx context.Context, txn statedb.ReadTxn, rev statedb.Revision, obj *RObj) error {
 	return o.do("delete", obj, rev)
 }
-func (o *ops3) Prune(ctx context.Context, txn statedb.ReadTxn, objs iter.Seq2[*RObj, statedb.Revision]) error {
+func (o *extraRec) Prune(ctx context.Context, txn statedb.ReadTxn, objs iter.Seq2[*RObj, statedb.Revision]) error {
 	return nil
 }
-
-func getStatus3(o *RObj) reconciler.Status { return o.Statuses.Get("r3") }
-func setStatus3(o *RObj, st reconciler.Status) *RObj {
-	o.Statuses = o.Statuses.Set("r3", st)
-	return o
+func (o *extraRec) getStatus(obj *RObj) reconciler.Status { return obj.Statuses.Get(o.name) }
+func (o *extraRec) setStatus(obj *RObj, st reconciler.Status) *RObj {
+	obj.Statuses = obj.Statuses.Set(o.name, st)
+	return obj
 }
 
-// checkSecond: the same obligations for the real second reconciler. final = failures and changes stopped and the bound elapsed.
-func (s *sim) checkSecond(what string, final bool) {
-	if !s.cfg.Second {
-		return
+// checkExtra: the same obligations for the further real reconcilers. final = failures and changes stopped and the bound elapsed.
+func (s *sim) checkExtra(what string, final bool) {
+	for _, x := range s.extra {
+		if s.failed {
+			return
+		}
+		s.checkExtraOne(x, what, final)
 	}
+}
+
+func (s *sim) checkExtraOne(x *extraRec, what string, final bool) {
 	rt := s.db.ReadTxn()
 	s.mu.Lock()
 	target := map[uint64]uint64{}
-	for k, v := range s.target3 {
+	for k, v := range x.target {
 		target[k] = v
 	}
 	model := map[uint64]uint64{}
 	for k, v := range s.model {
 		model[k] = v
 	}
-	attempts := append([]Attempt(nil), s.attempts3...)
+	attempts := append([]Attempt(nil), x.attempts...)
 	s.mu.Unlock()
 	for o := range s.table.All(rt) {
-		st := getStatus3(o)
+		st := x.getStatus(o)
 		if st.Kind == reconciler.StatusKindDone {
 			if tp, ok := target[o.ID]; !ok || tp != o.Payload {
-				s.violate("conv", "r3-done-but-target-differs", "%s: object id=%d payload=%d has status Done for the second reconciler but its target holds payload %d (present=%v)", what, o.ID, o.Payload, tp, ok)
+				s.violate("conv", "other-done-but-target-differs", "%s: object id=%d payload=%d has status Done for reconciler %s but its target holds payload %d (present=%v)", what, o.ID, o.Payload, x.name, tp, ok)
 				return
 			}
 		}
@@ -431,12 +440,12 @@ func (s *sim) checkSecond(what string, final bool) {
 				}
 			}
 			if !okAttempt {
-				s.violate("status", "r3-status-misreported", "%s: object id=%d payload=%d has status %s for the second reconciler, which issued no Update with that outcome for this version", what, o.ID, o.Payload, st.Kind)
+				s.violate("status", "other-status-misreported", "%s: object id=%d payload=%d has status %s for reconciler %s, which issued no Update with that outcome for this version", what, o.ID, o.Payload, st.Kind, x.name)
 				return
 			}
 		}
 		if final && st.Kind != reconciler.StatusKindDone {
-			s.violate("conv", "r3-not-done", "%s: object id=%d payload=%d has status %s for the second reconciler after failures and changes stopped and the bound elapsed", what, o.ID, o.Payload, st.Kind)
+			s.violate("conv", "other-not-done", "%s: object id=%d payload=%d has status %s for reconciler %s after failures and changes stopped and the bound elapsed", what, o.ID, o.Payload, st.Kind, x.name)
 			return
 		}
 	}
@@ -445,13 +454,13 @@ func (s *sim) checkSecond(what string, final bool) {
 	}
 	for id, p := range model {
 		if target[id] != p {
-			s.violate("conv", "r3-target-differs", "%s: the second reconciler's target has payload %d for id=%d, table has %d", what, target[id], id, p)
+			s.violate("conv", "other-target-differs", "%s: the target of reconciler %s has payload %d for id=%d, table has %d", what, x.name, target[id], id, p)
 			return
 		}
 	}
 	for id, p := range target {
 		if _, ok := model[id]; !ok {
-			s.violate("conv", "r3-target-has-removed-object", "%s: the second reconciler's target still holds id=%d payload=%d although it was removed from the table", what, id, p)
+			s.violate("conv", "other-target-has-removed-object", "%s: the target of reconciler %s still holds id=%d payload=%d although it was removed from the table", what, x.name, id, p)
 			return
 		}
 	}
@@ -701,7 +710,7 @@ func (s *sim) pacingChecks() {
 			s.waits++
 			// (with refreshing enabled the refresh loop re-marks objects on its own schedule, which is a change the event log
 			// does not see: an immediate new attempt may be a refresh, not a retry, so the lower bound is not judged there)
-			if wait < min && !s.cfg.Refresh && !s.cfg.Second {
+			if wait < min && !s.cfg.Refresh && s.cfg.Extra == 0 {
 				s.violate("pacing", "retry-too-early", "id=%d: retry %.3fms after the failed %s, minimum backoff is %v", id, float64(wait)/1e6, p.Op, min)
 				return
 			}
@@ -736,7 +745,10 @@ func Run(t *testing.T, r *vkit.Run, idx int, cfg Config) {
 	defer stop()
 	synctest.Test(t, func(t *testing.T) {
 		s := &sim{r: r, idx: idx, rng: r.Rand(idx), opRng: r.Rand(idx, 7), cfg: cfg, fp: vkit.NewHash(), target: map[uint64]uint64{}, model: map[uint64]uint64{},
-			modelRev: map[uint64]uint64{}, r2done: map[uint64]uint64{}, t0: time.Now(), target3: map[uint64]uint64{}, op3Rng: r.Rand(idx, 8)}
+			modelRev: map[uint64]uint64{}, r2done: map[uint64]uint64{}, t0: time.Now()}
+		for i := 0; i < cfg.Extra; i++ {
+			s.extra = append(s.extra, &extraRec{s: s, name: fmt.Sprintf("r%d", 3+i), target: map[uint64]uint64{}, rng: r.Rand(idx, uint64(8+i))})
+		}
 		o := &ops{s}
 		var bops reconciler.BatchOperations[*RObj]
 		if cfg.Batch {
@@ -785,14 +797,16 @@ func Run(t *testing.T, r *vkit.Run, idx int, cfg Config) {
 				}),
 			),
 			cell.Module("test3", "test3",
-				cell.Invoke(func(p reconciler.Params) (err error) {
-					if !cfg.Second {
-						return nil
+				cell.Invoke(func(p reconciler.Params) error {
+					for _, x := range s.extra {
+						_, err := reconciler.Register(p, s.table, (*RObj).Clone, x.setStatus, x.getStatus, reconciler.Operations[*RObj](x), nil,
+							reconciler.WithName(x.name), reconciler.WithRetry(cfg.BackoffMin, cfg.BackoffMax), reconciler.WithoutPruning(),
+							reconciler.WithRoundLimits(cfg.RoundSize, rate.NewLimiter(rate.Inf, 1)))
+						if err != nil {
+							return err
+						}
 					}
-					_, err = reconciler.Register(p, s.table, (*RObj).Clone, setStatus3, getStatus3, &ops3{s}, nil,
-						reconciler.WithName("r3"), reconciler.WithRetry(cfg.BackoffMin, cfg.BackoffMax), reconciler.WithoutPruning(),
-						reconciler.WithRoundLimits(cfg.RoundSize, rate.NewLimiter(rate.Inf, 1)))
-					return err
+					return nil
 				}),
 			),
 		)
@@ -851,7 +865,7 @@ func Run(t *testing.T, r *vkit.Run, idx int, cfg Config) {
 					// with a real second reconciler its status writes move objects to later revisions (as the simulated one's
 					// status-only writes do, which modelRev follows): an object whose revision is now above rev is a later change
 					cur := map[uint64]uint64{}
-					if cfg.Second {
+					if cfg.Extra > 0 {
 						for o, orev := range s.table.All(s.db.ReadTxn()) {
 							cur[o.ID] = orev
 						}
@@ -881,7 +895,7 @@ func Run(t *testing.T, r *vkit.Run, idx int, cfg Config) {
 			synctest.Wait()
 			s.checkTableAgainstModel(fmt.Sprintf("phase %d", ph))
 			if !s.failed {
-				s.checkSecond(fmt.Sprintf("phase %d", ph), false)
+				s.checkExtra(fmt.Sprintf("phase %d", ph), false)
 			}
 			if cfg.Pacing && !s.failed {
 				// in pacing runs no write races with the reconciler: every change has been seen, the watermark is exact
@@ -914,7 +928,7 @@ func Run(t *testing.T, r *vkit.Run, idx int, cfg Config) {
 			s.convergenceCheck("final")
 		}
 		if !s.failed {
-			s.checkSecond("final", true)
+			s.checkExtra("final", true)
 		}
 		if !s.failed && !cfg.Refresh {
 			s.checkWatermark("final")
@@ -931,7 +945,10 @@ func Run(t *testing.T, r *vkit.Run, idx int, cfg Config) {
 				nfail++
 			}
 		}
-		r.Count("second_reconciler_attempts", int64(len(s.attempts3)))
+		for _, x := range s.extra {
+			r.Count("other_reconcilers_attempts", int64(len(x.attempts)))
+		}
+		r.Max("reconcilers_on_one_table", int64(2+len(s.extra)))
 		r.Count("operation_attempts", int64(len(s.attempts)))
 		r.Count("failed_attempts", int64(nfail))
 		r.Count("user_writes", int64(len(s.writes)))
@@ -968,7 +985,9 @@ func RandomConfig(rng *rand.Rand, pacing bool) Config {
 		Phases:  2 + rng.IntN(4),
 		Pacing:  pacing,
 	}
-	c.Second = !pacing && rng.IntN(3) == 0
+	if !pacing && rng.IntN(3) == 0 {
+		c.Extra = 1 + rng.IntN(4)
+	}
 	if pacing {
 		c.LimiterMS = 0
 		c.Refresh = false
